@@ -361,6 +361,86 @@ theorem model_satisfies_spec (c : Cell) (hv : c.valid = true) :
 theorem transfer (c : Cell) (o : Obs) (hR : o = obsOf (session c)) (hv : c.valid = true) :
     holdsOn c o = .holds := hR ▸ model_satisfies_spec c hv
 
+/-! ## Every session is authenticated on its own (two exporters of one process, the same collector) -/
+
+/-- in the model the outcome of the SECOND exporter does not depend on the first one: not on its trust settings,
+    and therefore not on whether it completed a session (there is no session state to resume; that the code has
+    none either is `tie_config_fields_all_interpreted`, and the `tls resume` ops of the run observe it) -/
+theorem resume_independent (L : LibCfgs) (r r' : Resume) (ht : r.transport = r'.transport) (hp : r.peer = r'.peer)
+    (hs : r.second = r'.second) : (resumeWith L r).2 = (resumeWith L r').2 := by
+  simp [resumeWith, Resume.cell, Resume.obsVersion, ht, hp, hs]
+
+/-- ... it is the outcome of a fresh session of an exporter with the second one's configuration -/
+theorem resume_second_is_own_session (L : LibCfgs) (r : Resume) :
+    (resumeWith L r).2 = r.obsVersion (sessionWith L (r.cell r.second)) ∧
+    (resumeWith L r).1 = r.obsVersion (sessionWith L (r.cell r.first)) := ⟨rfl, rfl⟩
+
+/-- the predicate is the property: a completed session without a defect is one `sessionAllowed` permits -/
+theorem sessionDefect_none (c : Cell) (o : Obs) (h : sessionDefect c o = none) : sessionAllowed c = true := by
+  unfold sessionDefect at h
+  unfold sessionAllowed
+  cases h1 : serverEncrypted c <;> cases h2 : serverChains c <;> cases h3 : serverInValidity c <;>
+    cases h4 : serverNameOK c <;> cases h5 : peerVersionOK c <;> simp [h1, h2, h3, h4, h5] at h ⊢
+
+/-- what `holdsOnResume` demands, for ARBITRARY observations: if it holds and the second exporter completed its
+    session, then the collector's certificate chains to the CA the SECOND exporter is configured with (`ca1`, the
+    issuer) and matches the name the SECOND exporter expects - whatever the first exporter trusted or achieved -/
+theorem resume_spec_demands_own_authentication (r : Resume) (a b : Obs) (h : holdsOnResume r a b = .holds)
+    (hb : b.initOk = true) :
+    r.second.ca = .ca1 ∧ sessionAllowed (r.cell r.second) = true := by
+  unfold holdsOnResume at h
+  split at h
+  · cases h
+  · split at h
+    · cases h
+    · split at h
+      · cases h
+      · split at h
+        · cases h
+        · rename_i hd
+          simp only [exporterDefect, hb, if_true] at hd
+          have hall := sessionDefect_none _ _ hd
+          refine ⟨?_, hall⟩
+          have hc : serverChains (r.cell r.second) = true := by
+            simp only [sessionAllowed, Bool.and_eq_true] at hall
+            exact hall.1.1.1.2
+          cases hca : r.second.ca
+          · rfl
+          · simp [serverChains, Resume.cell, certSeenBy, hca, serverCertOf, goodSANs] at hc
+
+/-- the model against the specification: on every sequence of the run the model's two outcomes satisfy it -/
+theorem resume_model_satisfies_spec (r : Resume) (hv : r.valid = true) :
+    holdsOnResume r (obsOf (resume r).1) (obsOf (resume r).2) = .holds := by
+  simp only [resume, resumeWith, tie_libCfgs] at *
+  obtain ⟨t, p, ⟨caA, snA⟩, ⟨caB, snB⟩⟩ := r
+  revert t p caA snA caB snB
+  decide +kernel
+
+/-- in the model a second exporter configured with the other CA is refused, also right after a first exporter
+    configured with the issuing CA got through; and one configured with the issuing CA and a matching name gets
+    through, also right after a first exporter that was refused (the statement is not met by refusing everybody) -/
+theorem resume_second_refused_or_accepted_on_its_own (r : Resume) (hv : r.valid = true) :
+    (r.second.ca = .ca2 → (resume r).2.initOk = false ∧ (resume r).2.delivered = false) ∧
+    (r.second.ca = .ca1 → (r.second.serverName = .unset ∨ r.second.serverName = .dns ∨ r.second.serverName = .ip) →
+      (resume r).2.initOk = true ∧ (resume r).2.delivered = true) := by
+  simp only [resume, resumeWith, tie_libCfgs] at *
+  obtain ⟨t, p, ⟨caA, snA⟩, ⟨caB, snB⟩⟩ := r
+  revert t p caA snA caB snB
+  decide +kernel
+
+/-- the observation a shared session cache produces (exporter A, configured with the issuing CA, gets through; exporter
+    B, configured with the OTHER CA only, resumes A's session, gets through and delivers) FAILS the predicate -/
+theorem resumed_session_fails_spec (r : Resume) (hv : r.valid = true) (a b : Obs) (h2 : r.second.ca = .ca2)
+    (ha : exporterDefect (r.cell r.first) a = none) (hwa : (!a.initOk && a.delivered) = false)
+    (hb : b.initOk = true) :
+    holdsOnResume r a b = .fails "second-session-untrusted-chain" := by
+  have hpl : r.peer ≠ .plainSrv := by
+    intro hp
+    cases ht : r.transport <;> simp [Resume.valid, hp, ht] at hv
+  have hd : exporterDefect (r.cell r.second) b = some "untrusted-chain" := by
+    simp [exporterDefect, hb, sessionDefect, serverEncrypted, serverChains, Resume.cell, certSeenBy, h2, serverCertOf, goodSANs, hpl]
+  simp [holdsOnResume, hv, ha, hd, hb, hwa]
+
 /-! ## Non-vacuity -/
 
 -- valid peers DO get through (the safety statements above are not satisfied by refusing everybody)
